@@ -8,7 +8,9 @@ use common::*;
 use minidump_writer::minidump_writer::MinidumpWriter;
 use std::io::{Cursor, Seek, SeekFrom, Write};
 
-struct Probe { inner: Cursor<Vec<u8>>, writes: usize, fail_at: Option<usize>, bad: Option<String>, start: usize }
+struct Probe { inner: Cursor<Vec<u8>>, writes: usize, fail_at: Option<usize>, bad: Option<String>, start: usize,
+               /// destination operations so far (writes AND seeks); `fail_op`: that operation fails ONCE, later ones work again
+               ops: usize, fail_op: Option<usize> }
 impl Probe {
     fn check(&mut self) {
         if self.bad.is_some() { return; }
@@ -55,6 +57,8 @@ impl Probe {
 impl Write for Probe {
     fn write(&mut self, b: &[u8]) -> std::io::Result<usize> {
         if self.fail_at == Some(self.writes) { return Err(std::io::Error::other("injected write failure")); }
+        self.ops += 1;
+        if self.fail_op == Some(self.ops - 1) { return Err(std::io::Error::other("injected one-shot failure (write)")); }
         let n = self.inner.write(b)?;
         self.writes += 1;
         self.check();
@@ -62,14 +66,20 @@ impl Write for Probe {
     }
     fn flush(&mut self) -> std::io::Result<()> { Ok(()) }
 }
-impl Seek for Probe { fn seek(&mut self, p: SeekFrom) -> std::io::Result<u64> { self.inner.seek(p) } }
+impl Seek for Probe {
+    fn seek(&mut self, p: SeekFrom) -> std::io::Result<u64> {
+        self.ops += 1;
+        if self.fail_op == Some(self.ops - 1) { return Err(std::io::Error::other("injected one-shot failure (seek)")); }
+        self.inner.seek(p)
+    }
+}
 
 #[test]
 fn every_prefix_of_a_real_dump_is_consistent() {
     let mut child = start_child_and_wait_for_named_threads(5);
     let pid = child.id() as i32;
     // undisturbed dump, destination starting at offset 9 of a pre-filled file
-    let mut dest = Probe { inner: Cursor::new(vec![0xEE; 32]), writes: 0, fail_at: None, bad: None, start: 9 };
+    let mut dest = Probe { inner: Cursor::new(vec![0xEE; 32]), writes: 0, fail_at: None, bad: None, start: 9, ops: 0, fail_op: None };
     dest.inner.seek(SeekFrom::Start(9)).unwrap();
     let image = MinidumpWriter::new(pid, pid).dump(&mut dest).expect("dump");
     let total_writes = dest.writes;
@@ -78,13 +88,24 @@ fn every_prefix_of_a_real_dump_is_consistent() {
     // an I/O error at each write
     let mut failures = Vec::new();
     for k in 0..total_writes {
-        let mut d = Probe { inner: Cursor::new(Vec::new()), writes: 0, fail_at: Some(k), bad: None, start: 0 };
+        let mut d = Probe { inner: Cursor::new(Vec::new()), writes: 0, fail_at: Some(k), bad: None, start: 0, ops: 0, fail_op: None };
         let r = MinidumpWriter::new(pid, pid).dump(&mut d);
         if r.is_ok() { failures.push(format!("write #{k} failed but the dump reported success")); }
         if k > 0 {
             if let Some(b) = d.bad { failures.push(format!("failing write #{k}: {b}")); }
         }
     }
+    // a ONE-SHOT I/O error at each destination operation, write or seek (the operations after it work again): whether
+    // the writer gives up or carries on, what is in the destination after every later write stays consistent
+    let total_ops = dest.ops;
+    for k in 0..total_ops {
+        let mut d = Probe { inner: Cursor::new(Vec::new()), writes: 0, fail_at: None, bad: None, start: 0, ops: 0, fail_op: Some(k) };
+        let _ = MinidumpWriter::new(pid, pid).dump(&mut d);
+        if d.writes > 0 {
+            if let Some(b) = d.bad { failures.push(format!("one-shot failure of destination operation #{k}: {b}")); }
+        }
+    }
+    println!("BPRIME evaluations={}", total_writes + total_ops);
     child.kill().expect("Failed to kill process");
     child.wait().expect("Failed to wait on killed process");
     assert!(ok, "undisturbed dump: {:?} (or destination != image)", msg);
